@@ -4,7 +4,7 @@
     function [crc] (hash/crc32 in the code). *)
 From Coq Require Import NArith List.
 From AGH Require Import Base.Run Model.RuleListParser Model.Refresh Proofs.RuleListParser Proofs.RuleListWrite
-  Proofs.Refresh Proofs.RefreshEngine Proofs.RefreshWrite Proofs.RefreshRestart Proofs.RefreshWhole.
+  Proofs.Refresh Proofs.RefreshEngine Proofs.RefreshWrite Proofs.RefreshRestart Proofs.RefreshWhole Proofs.RefreshOverlap.
 Import ListNotations.
 Local Open Scope N_scope.
 
@@ -685,3 +685,29 @@ Example C15_eof_limit_witness :
   f_count (u_list (fst Truncated.cut)) = 2 /\
   fget 1 (snd Truncated.cut) = Some (RExamples.good ++ [124;124;112;10]).
 Proof. exact eof_limit_example. Qed.
+
+(** ** The copy-back under changes of the array (round 8)
+
+    Between the moment a pass takes its working copies and the moment it copies
+    the results back, add_url may append to the array (moving it to new
+    memory), remove_url may delete from it, set_url may rewrite an entry.  The
+    loop of the code reads the array anew and finds the entry by its ID: for
+    ANY array [cur] at that moment, every list still in it whose download was
+    stored gets the rule count, checksum and name of what was stored.  The
+    variant that walks the array of the beginning of the pass (seeded change
+    C15-O) is refuted for an array that has moved. *)
+Theorem C15_copy_back_survives_array_changes :
+  copy_back_statement (fun us _ cur => snd (copy_back_all us cur)).
+Proof. exact copy_back_survives_array_changes. Qed.
+Print Assumptions C15_copy_back_survives_array_changes.
+
+Theorem C15_copy_back_into_snapshot_refuted : ~ copy_back_statement copy_back_into_snapshot.
+Proof. exact copy_back_into_snapshot_refuted. Qed.
+Print Assumptions C15_copy_back_into_snapshot_refuted.
+
+Example C15_copy_back_satisfiable :
+  map f_count (snd (copy_back_all [Moved.u1] [Moved.l1; Moved.l2])) = [3; 2] /\
+  map f_sum (snd (copy_back_all [Moved.u1] [Moved.l1; Moved.l2])) = [8; 9] /\
+  map f_sum (snd (copy_back_all [Moved.u1] [Moved.l2])) = [9] /\
+  map f_sum (copy_back_into_snapshot [Moved.u1] [Moved.l1] [Moved.l1; Moved.l2]) = [7; 9].
+Proof. exact copy_back_example. Qed.
